@@ -32,6 +32,7 @@ import TypedpyModel.Lemmas.StubText
 import TypedpyModel.Lemmas.StubLex
 import TypedpyModel.Lemmas.StubDefine
 import TypedpyModel.Lemmas.DefineSig
+import TypedpyModel.Lemmas.StubReach
 namespace Typedpy.C16
 open Typedpy.Stub
 
@@ -755,5 +756,53 @@ theorem stubD_sig_names_in_stub_reachable {O : Oracles} {w : World} (hr : Reacha
     simpa [sigParamsD, List.map_append, List.map_map, Function.comp_def] using hn
   have := hs.names n hmem
   exact (c16_stubD_names w src n).mpr ⟨this.1, (c16_const_isNone w src n).mp this.2⟩
+
+/-- … and conversely (Lemmas/StubReach.lean: the signature of every class of a reachable world is COMPLETE, an
+    invariant proved through the C3 linearisation — the first owner of a name along the new class's MRO is the first
+    owner along the MRO of the direct base it comes from): the keyword names of the generated stub `__init__` ARE the
+    names of the runtime signature, for every class that any history of class statements can define -/
+theorem stubD_names_agree_reachable {O : Oracles} {w : World} (hr : Reachable O w) {src : ClassSrc} (apd : Bool)
+    (hc : runChecks (checks O w src) = .ok ()) (hfresh : w.find src.name = none) (n : String) :
+    n ∈ (stubInitD apd w src).params.map (·.name) ↔ n ∈ (sigParamsD (Typedpy.sigOf w src)).map (·.name) := by
+  constructor
+  · intro hn
+    have hkeys := (c16_stubD_names w src n).mp hn
+    have hfull := c16_build_sigFull (reachable_ok hr) (reachable_sigOk hr) (c16_reachable_sigFull hr) hc hfresh
+    have := hfull.full n hkeys.1 ((c16_const_isNone w src n).mpr hkeys.2)
+    have h2 : n ∈ (Typedpy.sigOf w src).req ∨ n ∈ (Typedpy.sigOf w src).opt := this
+    simpa [sigParamsD, List.map_append, List.map_map, Function.comp_def] using h2
+  · exact stubD_sig_names_in_stub_reachable hr apd hc hfresh n
+
+/-- hence the decidable `namesCovered` holds in every reachable world -/
+theorem stubD_namesCovered_reachable {O : Oracles} {w : World} (hr : Reachable O w) {src : ClassSrc}
+    (hc : runChecks (checks O w src) = .ok ()) (hfresh : w.find src.name = none) : namesCovered w src = true :=
+  (stubD_names_agree_iff true w src).mp (stubD_names_agree_reachable hr true hc hfresh)
+
+/-- C16 over the Define model, full strength: for every world reachable by class statements, every class statement
+    that passes the checks and both values of the default: the stub `__init__` has exactly the names of the runtime
+    signature, a parameter lacks a default iff the signature requires it, and `**kw` iff the constructor admits
+    unknown keywords -/
+theorem C16_define_statement_holds {O : Oracles} {w : World} (hr : Reachable O w) {src : ClassSrc} (dflt : Bool)
+    (hc : runChecks (checks O w src) = .ok ()) (hfresh : w.find src.name = none) :
+    (∀ n, n ∈ (stubInitD dflt w src).params.map (·.name) ↔ n ∈ (sigParamsD (Typedpy.sigOf w src)).map (·.name)) ∧
+    (∀ n, (⟨n, false⟩ : Param) ∈ (stubInitD dflt w src).params ↔ n ∈ (Typedpy.sigOf w src).req) ∧
+    (stubInitD dflt w src).kw = admitsD dflt w src := by
+  have hnames := stubD_names_agree_reachable hr dflt hc hfresh
+  refine ⟨hnames, ?_, stubD_kw_iff dflt w src⟩
+  intro n
+  have hsig : n ∈ (sigParamsD (Typedpy.sigOf w src)).map (·.name) →
+      covered w src n = true ∧ n ∈ (allFieldsOf w src).map (·.1) := by
+    intro h
+    exact ⟨((c16_sigD_names w src n).mp h).1, ((c16_stubD_names w src n).mp ((hnames n).mpr h)).1⟩
+  constructor
+  · intro h
+    have hstub : n ∈ (stubInitD dflt w src).params.map (·.name) := List.mem_map.mpr ⟨⟨n, false⟩, h, rfl⟩
+    obtain ⟨hcov, hk⟩ := hsig ((hnames n).mp hstub)
+    exact (stubD_required_agree dflt w src n hcov hk).mp h
+  · intro h
+    have hs : n ∈ (sigParamsD (Typedpy.sigOf w src)).map (·.name) := by
+      simp [sigParamsD, List.map_append, List.map_map, Function.comp_def, h]
+    obtain ⟨hcov, hk⟩ := hsig hs
+    exact (stubD_required_agree dflt w src n hcov hk).mpr h
 
 end Typedpy.C16
